@@ -173,7 +173,7 @@ def run_apalache(sc, module, args, timeout=600):
 def run_tlc(sc, module, cfg, workers=None, simulate=None, depth=None, seed=None,
             timeout=1800, extra_files=None, deque=False, coverage=False,
             heap=None, collect_json=False, extra_args=None, allow_violation=False,
-            deadlock=False):
+            deadlock=False, sample=None):
     """Run TLC on spec/<module>.tla with spec/<cfg> in a scratch copy of spec/.
     Returns a TlcResult.  Raises MachineryError on anything that is not a
     clean pass (or a property violation when allow_violation)."""
@@ -202,13 +202,65 @@ def run_tlc(sc, module, cfg, workers=None, simulate=None, depth=None, seed=None,
     cmd.append(module + ".tla")
     r = TlcResult()
     t0 = time.time()
+    # TLC's output is read as it comes: generator output can be gigabytes (the simulator prints every
+    # behaviour once per successor of its last step), so JSON lines are parsed - and, with `sample`, thinned
+    # out to one behaviour per distinct prefix - on the fly and nothing else of them is kept
+    other = []
+    groups = {}       # sample: prefix key -> [count, chosen]
+    rng = None
+    if sample is not None:
+        import random
+        rng = random.Random(sample.get("seed", 1))
+    proc = subprocess.Popen(cmd, cwd=d, stdout=subprocess.PIPE, stderr=subprocess.STDOUT, text=True)
+    timed_out = []
+
+    def _kill():
+        timed_out.append(True)
+        proc.kill()
+    import threading
+    timer = threading.Timer(timeout, _kill)
+    timer.start()
     try:
-        p = subprocess.run(cmd, cwd=d, stdout=subprocess.PIPE, stderr=subprocess.STDOUT,
-                           text=True, timeout=timeout)
-    except subprocess.TimeoutExpired:
-        raise MachineryError("TLC timed out after %ds: %s %s" % (timeout, module, cfg))
+        for ln in proc.stdout:
+            ln = ln.rstrip("\n")
+            if collect_json and ln.startswith('"') and ln.endswith('"') and len(ln) > 2 and ln[1] in "[{":
+                try:
+                    v = json.loads(json.loads(ln))
+                except Exception as e:  # noqa
+                    proc.kill()
+                    raise MachineryError("cannot parse generator line: %r (%s)" % (ln[:200], e))
+                if sample is None:
+                    r.lines.append(v)
+                else:
+                    st = sample["steps_of"](v)
+                    key = hash(json.dumps(st[:-1], sort_keys=True))
+                    g = groups.get(key)
+                    if g is None:
+                        if sample.get("limit") and len(groups) >= sample["limit"]:
+                            continue
+                        groups[key] = [1, v]
+                    else:
+                        g[0] += 1
+                        if rng.randrange(g[0]) == 0:
+                            g[1] = v
+            else:
+                other.append(ln)
+                if len(other) > 200000:
+                    del other[:100000]
+        proc.wait()
     finally:
+        timer.cancel()
         shutil.rmtree(meta, ignore_errors=True)
+    if timed_out:
+        raise MachineryError("TLC timed out after %ds: %s %s" % (timeout, module, cfg))
+    if sample is not None:
+        r.lines = [g[1] for g in groups.values()]
+
+    class _P:
+        pass
+    p = _P()
+    p.stdout = "\n".join(other)
+    p.returncode = proc.returncode
     r.wall = time.time() - t0
     r.rc = p.returncode
     r.out = p.stdout
@@ -217,13 +269,6 @@ def run_tlc(sc, module, cfg, workers=None, simulate=None, depth=None, seed=None,
     m = _re_depth.search(p.stdout)
     if m:
         r.depth = int(m.group(1))
-    if collect_json:
-        for ln in p.stdout.splitlines():
-            if ln.startswith('"') and ln.endswith('"') and len(ln) > 2 and ln[1] in "[{":
-                try:
-                    r.lines.append(json.loads(json.loads(ln)))
-                except Exception as e:  # noqa
-                    raise MachineryError("cannot parse generator line: %r (%s)" % (ln[:200], e))
     if "is violated" in p.stdout or "was violated" in p.stdout or "Error: Deadlock reached" in p.stdout:
         m = re.search(r"Error: (.*(?:is violated|was violated|Deadlock reached).*)", p.stdout)
         r.violation = m.group(1) if m else "violated"
